@@ -472,6 +472,25 @@ def _brinkfixed(ctx, A, gen, shape, nd, field_type):
     return {"penalised_vector_field": exp}
 
 
+@case("gen_laplacian_filter_kernel_3d", (5, 5, 5), 3, [{"filter_order": o, "filter_type": t, "field_type": ft} for o in (1, 2) for t in ("multiplicative", "convolution") for ft in ("scalar", "vector")])
+def _lapfilter(ctx, A, gen, shape, nd, filter_order, filter_type, field_type):
+    # caller-owned scratch buffers: arbitrary contents when the kernel is generated AND when it is called
+    b1, b2 = A.new("filter_flux_buffer", shape, "scratch"), A.new("field_buffer", shape, "scratch")
+    k = gen(filter_order=filter_order, filter_flux_buffer=b1, field_buffer=b2, real_t=ctx.real_t, num_threads=False, field_type=field_type, filter_type=filter_type)
+    b1[...] = ctx.array("flux_buffer_at_call", shape)
+    b2[...] = ctx.array("field_buffer_at_call", shape)
+    if field_type == "scalar":
+        f = A.new("scalar_field", shape, "out")
+        k(scalar_field=f)
+        return {"scalar_field": R.laplacian_filter_scalar(A.prior("scalar_field"), filter_order, filter_type)}
+    f = A.new("vector_field", _vs(3, shape), "out")
+    k(vector_field=f)
+    exp = A.prior("vector_field").copy()
+    for i in range(3):
+        exp[i] = R.laplacian_filter_scalar(A.prior("vector_field")[i], filter_order, filter_type)
+    return {"vector_field": exp}
+
+
 def _all_nonneg(ctx, arr):
     if ctx.sym:
         from symsopht import sym as S
@@ -614,7 +633,6 @@ def main():
     handled_elsewhere = {
         "gen_penalise_field_boundary_pyst_kernel_2d": "C19/C01 (needs grid coordinate fields; tolerance obligation)",
         "gen_penalise_field_boundary_pyst_kernel_3d": "C19/C01",
-        "gen_laplacian_filter_kernel_3d": "C19 (filters) and C01",
         "gen_char_func_from_level_set_via_sine_heaviside_pyst_kernel_2d": "C19 (transcendental axioms)",
         "gen_char_func_from_level_set_via_sine_heaviside_pyst_kernel_3d": "C19",
     }
